@@ -110,6 +110,9 @@ pub enum Act {
     None,
     Remove,
     Replace,
+    /// "put this source into the slot": `replace(new)` when the wrapper holds something, `*t = new.into()` when
+    /// `is_none()` (replace() on an empty wrapper drops the new source, so assignment is the only way to refill it)
+    Fill,
 }
 
 #[derive(Serialize, Deserialize, Debug, Clone, Copy, Hash, PartialEq, Eq)]
@@ -127,6 +130,8 @@ pub enum Op {
     Remove,
     /// `replace(new child)` from outside (+ `update(token)` when the parent is registered).
     Replace,
+    /// `Act::Fill` from outside (+ `update(token)` when the parent is registered).
+    Fill,
     /// `map(|c| c.id)` compared with the reference machine's current child.
     Map,
     Enable,
@@ -164,6 +169,7 @@ fn act_strategy() -> impl Strategy<Value = Act> {
         4 => Just(Act::None),
         1 => Just(Act::Remove),
         2 => Just(Act::Replace),
+        1 => Just(Act::Fill),
     ]
 }
 
@@ -171,9 +177,9 @@ fn op_strategy(avoid_f11: bool) -> impl Strategy<Value = Op> {
     prop_oneof![
         6 => (ret_strategy(avoid_f11), act_strategy()).prop_map(|(ret, act)| Op::Fire { ret, act }),
         2 => act_strategy().prop_map(|act| Op::FireSibling { act }),
-        1 => Just(Op::FireOld),
-        1 => Just(Op::Remove),
+        2 => prop_oneof![Just(Op::FireOld), Just(Op::Remove)],
         3 => Just(Op::Replace),
+        2 => Just(Op::Fill),
         1 => Just(Op::Map),
         2 => Just(Op::Enable),
         2 => Just(Op::Disable),
@@ -211,6 +217,8 @@ enum Ev {
     DidRemove,
     /// `replace(new)` was called on the wrapper; `was_none` = `is_none()` right before
     DidReplace { new: usize, was_none: bool },
+    /// `*t = TransientSource::from(new)` on an empty wrapper
+    DidFill { new: usize },
     /// Comp: `TransientSource::process_events` returned `ret`
     TRet { ret: PostAction, was_none: bool, none_after: bool, quiet: bool },
 }
@@ -387,6 +395,17 @@ fn apply_act(t: &mut TransientSource<Child>, sh: &Rc<Sh>, act: Act) {
             let new = c.id;
             t.replace(c);
             sh.log(Ev::DidReplace { new, was_none });
+        }
+        Act::Fill => {
+            let c = new_child(sh, sh.kind);
+            let new = c.id;
+            if t.is_none() {
+                *t = c.into();
+                sh.log(Ev::DidFill { new });
+            } else {
+                t.replace(c);
+                sh.log(Ev::DidReplace { new, was_none: false });
+            }
         }
     }
 }
@@ -665,6 +684,14 @@ impl Model {
                 }
                 None
             }
+            Ev::DidFill { new } => {
+                // the wrapper was empty (is_none()): nothing to unregister, the new child is the current one at once
+                self.cur = Some(new);
+                let c = self.child(new);
+                c.status = St::Kept;
+                c.wrapped = true;
+                None
+            }
             Ev::TRet { ret, was_none, none_after, quiet } => {
                 if !matches!(ret, PostAction::Continue | PostAction::Reregister) {
                     return Some(v("C18.ret", "not-continue-or-reregister", format!("TransientSource::process_events returned {ret:?}; only Continue or Reregister are allowed")));
@@ -845,7 +872,7 @@ impl World {
                     Applic::No
                 }
             }
-            Op::Remove | Op::Replace => {
+            Op::Remove | Op::Replace | Op::Fill => {
                 if blocked {
                     Applic::Steered
                 } else {
@@ -942,6 +969,13 @@ impl World {
                     } else {
                         class(self, "replace_on_empty");
                     }
+                }
+                Ev::DidFill { .. } => {
+                    if self.in_dispatch {
+                        self.parent_call();
+                    }
+                    class(self, if self.model.parent_reg { "refill_empty_wrapper_of_registered_parent" } else { "refill_empty_wrapper_of_disabled_parent" });
+                    self.change_step.get_or_insert(self.parent_calls_by_step.len().saturating_sub(1));
                 }
                 Ev::TRet { was_none: true, .. } => class(self, "process_events_on_empty"),
                 _ => {}
@@ -1119,9 +1153,20 @@ impl World {
                 }
                 self.dispatch()
             }
-            Op::Remove | Op::Replace => {
-                let act = if op == Op::Remove { Act::Remove } else { Act::Replace };
-                class(self, if op == Op::Remove { "remove_outside" } else { "replace_outside" });
+            Op::Remove | Op::Replace | Op::Fill => {
+                let act = match op {
+                    Op::Remove => Act::Remove,
+                    Op::Replace => Act::Replace,
+                    _ => Act::Fill,
+                };
+                class(
+                    self,
+                    match op {
+                        Op::Remove => "remove_outside",
+                        Op::Replace => "replace_outside",
+                        _ => "fill_outside",
+                    },
+                );
                 if !preg {
                     class(self, "change_while_parent_disabled");
                 }
@@ -1333,8 +1378,11 @@ fn core_alphabet() -> Vec<Op> {
         Op::FireSibling { act: Act::None },
         Op::FireSibling { act: Act::Remove },
         Op::FireSibling { act: Act::Replace },
+        Op::Fire { ret: Ret::Remove, act: Act::Fill },
+        Op::FireSibling { act: Act::Fill },
         Op::Remove,
         Op::Replace,
+        Op::Fill,
         Op::Enable,
         Op::Disable,
         Op::Update,
@@ -1365,10 +1413,16 @@ fn alphabet(emb: Emb, kind: Kind) -> Vec<Op> {
             Kind::Timer => a.push(Op::FireSibling { act: Act::None }),
         }
     }
+    if emb == Emb::Comp {
+        a.push(Op::Fire { ret: Ret::Remove, act: Act::Fill });
+        if kind == Kind::Fd {
+            a.push(Op::FireSibling { act: Act::Fill });
+        }
+    }
     if kind == Kind::Fd {
         a.push(Op::FireOld);
     }
-    a.extend([Op::Remove, Op::Replace, Op::Map, Op::Enable, Op::Disable, Op::Update, Op::Dispatch]);
+    a.extend([Op::Remove, Op::Replace, Op::Fill, Op::Map, Op::Enable, Op::Disable, Op::Update, Op::Dispatch]);
     a
 }
 
@@ -1571,14 +1625,15 @@ fn case_from_bytes(data: &[u8], max_len: usize, avoid_f11: bool) -> Case {
     let emb = if d.bool() { Emb::Comp } else { Emb::Top };
     let kind = if d.pickw(&[2, 1]) == 0 { Kind::Fd } else { Kind::Timer };
     let from = d.pickw(&[5, 1]) == 0;
-    let act = |d: &mut Dec| match d.pickw(&[4, 1, 2]) {
+    let act = |d: &mut Dec| match d.pickw(&[4, 1, 2, 1]) {
         0 => Act::None,
         1 => Act::Remove,
-        _ => Act::Replace,
+        2 => Act::Replace,
+        _ => Act::Fill,
     };
     let mut ops = Vec::new();
     while ops.len() < max_len && !d.is_empty() {
-        ops.push(match d.pickw(&[6, 2, 1, 1, 3, 1, 2, 2, 2, 1]) {
+        ops.push(match d.pickw(&[6, 2, 1, 1, 3, 1, 2, 2, 2, 1, 2]) {
             0 => {
                 let ret = match d.pickw(&[6, 4, if avoid_f11 { 1 } else { 4 }, 2]) {
                     0 => Ret::Continue,
@@ -1596,7 +1651,8 @@ fn case_from_bytes(data: &[u8], max_len: usize, avoid_f11: bool) -> Case {
             6 => Op::Enable,
             7 => Op::Disable,
             8 => Op::Update,
-            _ => Op::Dispatch,
+            9 => Op::Dispatch,
+            _ => Op::Fill,
         });
     }
     let same_fd = kind == Kind::Fd && d.pct(30);
